@@ -49,15 +49,57 @@ def g_replay(rep, nh, maxlen, view, sc, label):
         return
     rep.tlc_stats(res, "List graph " + label)
     if view:
-        # with VIEW only first-discovery edges carry a faithful `last`: use the BFS tree only
-        tree_edges = []
+        # with VIEW the `last` label of a node is the operation of its FIRST discovery only; the operation of every
+        # edge is taken from the edge label (TLC prints the action with its arguments) and the result from the source
+        # state's abstract value
+        import re as _re
+        OPS = {"New": "new", "Clone": "clone", "Drop": "drop", "TailOp": "tail", "HeadOp": "head", "PushFront": "push_front", "PushBack": "push_back"}
+
+        def step_of(src, dst, lab):
+            m = _re.match(r"(\w+)\(([^)]*)\)", lab)
+            name, args = m.group(1), [int(a) for a in m.group(2).split(",")]
+            op = OPS[name]
+            h = args[0]
+            g = args[1] if op == "clone" else 0
+            x = args[1] if op in ("push_front", "push_back") else 0
+            ab = nodes[src]["abs"][h - 1]
+            res = "-"
+            if op == "tail":
+                res = "err" if not ab else "ok"
+            if op == "head":
+                res = "none" if not ab else str(ab[0])
+            return {"id": dst, "op": op, "h": h, "g": g, "x": x, "res": res}
         seen = set(inits)
-        for s, d, a in edges:
-            if d not in seen:
-                seen.add(d)
-                tree_edges.append((s, d, a))
-        edges = tree_edges
-    paths = nv.graph_paths(nodes, edges, inits)
+        parent = {}
+        order = list(inits)
+        succ = {}
+        for s_, d_, a_ in edges:
+            succ.setdefault(s_, []).append((d_, a_))
+        qi = 0
+        while qi < len(order):
+            u = order[qi]
+            qi += 1
+            for d_, a_ in succ.get(u, []):
+                if d_ not in seen:
+                    seen.add(d_)
+                    parent[d_] = (u, a_)
+                    order.append(d_)
+        children = {}
+        for d_, (u, a_) in parent.items():
+            children.setdefault(u, []).append(d_)
+        paths = []
+        for n_ in order:
+            if n_ not in children and n_ in parent:
+                steps = []
+                cur = n_
+                while cur in parent:
+                    u, a_ = parent[cur]
+                    steps.append(step_of(u, cur, a_))
+                    cur = u
+                paths.append([cur] + steps[::-1])
+        edges = [(u, d_, a_) for d_, (u, a_) in parent.items()]
+    else:
+        paths = nv.graph_paths(nodes, edges, inits)
     npath = os.path.join(sc, "nodes_%s.ndjson" % label)
     ppath = os.path.join(sc, "paths_%s.ndjson" % label)
     nv.write_ndjson(npath, [canon_node(i, st, nh) for i, st in nodes.items()])
@@ -79,8 +121,9 @@ def g_replay(rep, nh, maxlen, view, sc, label):
     rep.add("g_transitions_replayed", len(edges))
     rep.add("distinct_nontrivial", summ["nodes_covered"])
     rep.add("traces_validated_against_impl", summ["paths"])
-    for p in paths[:2]:
-        rep.sample({"G_path": [[nodes[i]["last"]["op"], nodes[i]["last"]["h"], nodes[i]["last"]["g"], nodes[i]["last"]["x"]] for i in p[1:]]})
+    for p in sorted(paths, key=len)[-2:]:
+        rep.sample({"G_path": [([nodes[i]["last"]["op"], nodes[i]["last"]["h"], nodes[i]["last"]["g"], nodes[i]["last"]["x"]] if isinstance(i, str)
+                                else [i["op"], i["h"], i["g"], i["x"]]) for i in p[1:]]})
     if rep.violations or summ.get("drift"):
         return
     # self-test of the binding: corrupt one expectation, the replay must notice
